@@ -251,5 +251,81 @@ theorem mem_pixels_toList (d : MD) (c : Option Color) (hc : c ∈ d.pixels.toLis
   have e : (((i % 64 : Nat) : Int) + ((i / 64 : Nat) : Int) * 64).toNat = i := by omega
   rw [e]; simpa using hi
 
+/-! ### Where `from_pattern` puts the characters -/
+
+theorem padRow_length (r : List (Option Color)) : (padRow r).length = 64 := by
+  unfold padRow; simp
+
+theorem padRow_getElem? (r : List (Option Color)) {x : Nat} (hx : x < 64) :
+    (padRow r)[x]? = some ((r[x]?).join) := by
+  unfold padRow
+  rw [List.getElem?_take_of_lt hx]
+  by_cases h : x < r.length
+  · rw [List.getElem?_append_left h, List.getElem?_eq_getElem h]; rfl
+  · rw [List.getElem?_append_right (by omega), List.getElem?_replicate]
+    have : r[x]? = none := List.getElem?_eq_none (by omega)
+    rw [this, if_pos (by omega)]; rfl
+
+theorem flatMap_padRow_length : ∀ (rows : List (List (Option Color))),
+    (rows.flatMap padRow).length = 64 * rows.length
+  | [] => rfl
+  | r :: rest => by
+    rw [List.flatMap_cons, List.length_append, padRow_length, flatMap_padRow_length rest, List.length_cons]
+    omega
+
+/-- Cell `(x, y)` of the colour stream `from_pattern` stores: character `x` of row `y`, `None`
+beyond the pattern. -/
+theorem patternColors_getElem? (rows : List (List (Option Color))) (hr : rows.length ≤ 64)
+    {x y : Nat} (hx : x < 64) (hy : y < 64) :
+    (patternColors rows)[x + y * 64]? = some (((rows[y]?).bind (fun r => r[x]?)).join) := by
+  unfold patternColors
+  rw [List.getElem?_take_of_lt (by omega)]
+  have hlen := flatMap_padRow_length rows
+  by_cases h : y < rows.length
+  · rw [List.getElem?_append_left (by omega),
+      getElem?_flatMap64 padRow rows (fun a _ => padRow_length a)]
+    have e1 : (x + y * 64) / 64 = y := by omega
+    have e2 : (x + y * 64) % 64 = x := by omega
+    rw [e1, e2, List.getElem?_eq_getElem h]
+    simp only [Option.bind_some]
+    exact padRow_getElem? _ hx
+  · rw [List.getElem?_append_right (by omega), List.getElem?_replicate]
+    have : rows[y]? = none := List.getElem?_eq_none (by omega)
+    rw [this, if_pos (by omega)]; rfl
+
+theorem convRows_length (ct : CT) : ∀ (pat : List (List Char)) (rows : List (List (Option Color))),
+    convRows ct pat = some rows → rows.length = pat.length
+  | [], rows, h => by simp only [convRows] at h; cases h; rfl
+  | r :: rest, rows, h => by
+    simp only [convRows] at h
+    cases h1 : convRow ct r with
+    | none => rw [h1] at h; cases h
+    | some v =>
+      cases h2 : convRows ct rest with
+      | none => rw [h1, h2] at h; cases h
+      | some vs =>
+        rw [h1, h2] at h; cases h
+        simp [convRows_length ct rest vs h2]
+
+theorem fromPattern_cells (ct : CT) (pat : List (List Char)) (rows : List (List (Option Color)))
+    (w : Nat) (hw : w ≤ 64) (h1 : ∀ r ∈ pat, rowLen r = w) (h2 : pat.length ≤ 64)
+    (h3 : convRows ct pat = some rows) :
+    ∃ d, fromPattern ct pat = .ok d ∧ ∀ x y : Nat, x < 64 → y < 64 →
+      d.getPixel ⟨(x : Int), (y : Int)⟩ = some (((rows[y]?).bind (fun r => r[x]?)).join) := by
+  refine ⟨_, fromPattern_ok ct pat rows w hw h1 h2 h3, ?_⟩
+  intro x y hx hy
+  have hp : Inside ⟨(x : Int), (y : Int)⟩ := by unfold Inside; simp only; omega
+  rw [getPixel_inside _ hp]
+  congr 1
+  unfold MD.cell
+  have hi : idx ⟨(x : Int), (y : Int)⟩ = x + y * 64 := by unfold idx; simp only; omega
+  rw [hi]
+  have hl : x + y * 64 < 4096 := by omega
+  have := pixels_toList_getElem? (⟨cellsOfPattern rows, false, false⟩ : MD) hl
+  have hto : (cellsOfPattern rows).toList = patternColors rows := by unfold cellsOfPattern; simp
+  simp only [hto] at this
+  rw [patternColors_getElem? rows (by rw [convRows_length ct pat rows h3]; exact h2) hx hy] at this
+  simpa using this.symm
+
 end Mock
 end EG
